@@ -57,6 +57,12 @@ def r2_start(ctx, chk, rule="C01.2"):
     f = ctx.func("tad.py::Node.__init__")
     sx = SymX(ctx, f, "Node").run()
     stores = [e for e in sx.final.effects if e[1] == "store" and e[3] == REACH]
+    if len(stores) == 2 and stores[0][2] == stores[1][2] == ("v", "self") and stores[1][0] == simp(("not", stores[0][0])):
+        # `if c: self.reach_probability = a` / `else: self.reach_probability = b` is one store of `a if c else b`
+        stores = [(TRUE, "store", ("v", "self"), REACH, simp(("ite", stores[0][0], stores[0][4], stores[1][4])))]
+    if len(stores) > 1 and all(e[2] == ("v", "self") for e in stores) and ((("v", "self"), REACH) in sx.final.heap):
+        # several assignments in a row (`= 0`, then `if final: = 1`): what the field holds when the constructor returns
+        stores = [(TRUE, "store", ("v", "self"), REACH, sx.final.heap[(("v", "self"), REACH)])]
     if len(stores) != 1:
         chk.undecided(rule, f.where(), "%d stores to reach_probability in Node.__init__" % len(stores))
         return
@@ -180,8 +186,20 @@ def r3_writers(ctx, chk, rule="C01.3"):
     call = vir_calls[0]
     dom = call[3][0] if call[3] else dict(call[4]).get("states_reaching_final")
     want = ("call", "reverse_dfs", (("v", f.params[1]), ("v", f.params[2])), ())
-    if dom == want:
+    def _unwrapped(t):
+        # a copy / reordering / set of the same states is the same domain
+        while t is not None and t[0] == "call" and t[1] in ("sorted", "list", "tuple", "set", "frozenset", "reversed") and len(t[2]) == 1 and not t[3]:
+            t = t[2][0]
+        return t
+    if _unwrapped(dom) == want:
         chk.ok(rule, f.where(), "sweep domain = reverse_dfs(%s, %s), passed on unmodified" % (f.params[1], f.params[2]))
+    elif _unwrapped(dom) is not None and _unwrapped(dom)[0] == "call" and _unwrapped(dom)[1] == "reverse_dfs":
+        # the backward search itself, asked another question (other arguments, further options)
+        chk.violation(rule, f.where(), "the sweep domain is `%s`, not the unmodified result of the backward search over the game's transitions and final states" % show(dom)[:160],
+                      expected=show(want), found=show(dom)[:160], construct="solve_reachability sweep domain")
+    elif dom is None or mentions(dom, lambda x: x[0] in ("res", "apply", "compr") or (x[0] == "call" and x[1] not in ("reverse_dfs", "sorted", "list", "tuple", "set", "frozenset", "len", "range"))
+                                 or (x[0] == "mcall" and x[1] == ("v", "self"))):
+        chk.undecided(rule, f.where(), "the sweep domain is `%s`: how it derives from the backward search is not resolved" % (show(dom)[:100] if dom is not None else None))
     else:
         chk.violation(rule, f.where(), "the sweep domain is `%s`, not the unmodified result of the backward search over the game's transitions and final states" % show(dom),
                       expected=show(want), found=show(dom), construct="solve_reachability sweep domain")
@@ -194,8 +212,14 @@ def r3_writers(ctx, chk, rule="C01.3"):
         return
     a = sr[0][3]
     want_a = (("attr", ("v", "self"), "transition_list"), ("attr", ("v", "self"), "final_states"))
-    if tuple(a[:2]) == want_a:
+    def _copy_of(t):
+        while t[0] == "call" and t[1] in ("list", "tuple", "copy.copy", "copy.deepcopy") and len(t[2]) == 1 and not t[3]:
+            t = t[2][0]
+        return t
+    if tuple(_copy_of(x) for x in a[:2]) == want_a:
         chk.ok(rule, g.where(), "solve() hands self.transition_list and self.final_states to the reachability solver")
+    elif len(a) < 2 or any(mentions(x, lambda y: y[0] in ("res", "apply", "compr", "mcall") or (y[0] == "v" and y[1] != "self")) for x in a[:2]):
+        chk.undecided(rule, g.where(), "solve_reachability receives (%s): not resolved to the game's own transition list and final states" % ", ".join(show(x)[:50] for x in a))
     else:
         chk.violation(rule, g.where(), "solve_reachability receives (%s)" % ", ".join(show(x) for x in a),
                       expected="(self.transition_list, self.final_states, self.prune_states)", found=", ".join(show(x) for x in a),
@@ -417,6 +441,10 @@ def r4_sweep(ctx, chk, rule="C01.4"):
         return
     f, sx, W, F, fo, where = r["f"], r["sx"], r["W"], r["F"], r["fold"], r["where"]
     dom_param = f.params[1]
+    if strip_perm(F.source) != ("v", dom_param) and strip_perm(F.source)[0] in ("res", "compr", "apply", "mcall"):
+        # a list computed beforehand (a sweep plan, a pre-resolved table): how it derives from the search result is not followed
+        chk.undecided(rule, where, "the sweep iterates `%s`; its relation to the search result `%s` is not resolved" % (show(F.source)[:80], dom_param))
+        return
     if strip_perm(F.source) != ("v", dom_param):      # the order of a Gauss-Seidel sweep does not change its limit
         chk.violation(rule, where, "the sweep iterates `%s`, not the search result `%s`" % (show(F.source), dom_param),
                       expected="for s in %s" % dom_param, found=show(F.source), construct="value_iteration_reachability sweep domain")
@@ -496,6 +524,19 @@ def r5_flag(ctx, chk, rule="C01.5"):
                                       "the outcome of the reachability phase depends on the flag beyond the documented no-solution test" % (src(st.test), f.short),
                                       expected="the flag guards only the no-solution raise after the sweep", found=norm_stmt(st), construct="%s extra flag-guarded raise" % f.short)
                     continue
+                # (b'') the inverted guard clause at the end of the sweep: `if <all is well>: return i` / `raise ...`
+                if q == SOLVER_VIR and isinstance(st, ast.If) and _in(n, st.test) and not st.orelse and st.body and isinstance(st.body[-1], ast.Return) \
+                        and all(_is_log(b) for b in st.body[:-1]) and not any(isinstance(x, ast.Name) and x.id == flag for x in ast.walk(st.body[-1])):
+                    blk = getattr(st, "parent", None)
+                    rest = []
+                    if blk is not None:
+                        for fld in ("body", "orelse", "finalbody"):
+                            seq = getattr(blk, fld, None)
+                            if isinstance(seq, list) and st in seq:
+                                rest = seq[seq.index(st) + 1:]
+                    if rest and all(isinstance(b, ast.Raise) or _is_log(b) for b in rest) and isinstance(rest[-1], ast.Raise) and blk is f.node:
+                        chk.ok(rule, f.where(n), "flag `%s` decides only between `return` and the no-solution raise that follows (`if %s: return`; the exact condition is judged by C06.2)" % (flag, src(st.test)))
+                        continue
                 chk.violation(rule, f.where(n), "`%s` depends on the pruning flag: the reported probabilities / strategies are not the same with pruning on and off" % norm_stmt(st),
                               expected="flag only forwarded or guarding the 'no solution' raise", found=norm_stmt(st),
                               construct="%s flag use in `%s`" % (f.short, norm_stmt(st)))
